@@ -99,6 +99,13 @@ def alphabet(nq, nn, reduced=False):
         for r in [None, J[0], L(J[0], J[1])] + [Q(k) for k in range(nq)][:1]:
             for s in (None, 0):
                 out.append(('Job', r, s))
+    if nn == 0 and not reduced:
+        out.append(('JobPair', (J[0], J[1]), None))
+        out.append(('JobPair', (J[0],), 0))
+    for x in (0, 1):
+        if nn >= 2:
+            out.append(('nrequires', x, (J[3],), False))
+            out.append(('nrequires', x, (J[0],), True))
     for s in (0, 1):
         out.append(('add', s, J[0]))
         for k in range(nq)[:1]:
@@ -196,6 +203,16 @@ class Model:
             self.requires(n, [st[1]])
             if st[2] is not None:
                 self.mem[st[2]].add(n)
+        elif kind == 'JobPair':
+            for _ in (0, 1):
+                n = ('n', self.created)
+                self.created += 1
+                self.req[n] = set()
+                self.requires(n, list(st[1]))
+                if st[2] is not None:
+                    self.mem[st[2]].add(n)
+        elif kind == 'nrequires':
+            self.requires(('n', st[1]), st[2], st[3])
         elif kind == 'add':
             self.mem[st[1]].update(self.jobs_of_items([st[2]]))
         elif kind == 'update':
@@ -259,6 +276,19 @@ class Real:
             self.created += 1
             self.jobs[tok] = job
             self.names[job] = tok
+        elif kind == 'JobPair':
+            shared = {self.obj(t) for t in st[1]}      # ONE set object
+            s = None if st[2] is None else self.scheds[st[2]]
+            for _ in (0, 1):
+                tok = ('n', self.created)
+                job = SJob('n%d' % self.created, 5 + self.created,
+                           required=shared, scheduler=s)
+                self.created += 1
+                self.jobs[tok] = job
+                self.names[job] = tok
+        elif kind == 'nrequires':
+            self.jobs[('n', st[1])].requires(*[self.obj(t) for t in st[2]],
+                                             remove=st[3])
         elif kind == 'add':
             self.scheds[st[1]].add(self.obj(st[2]))
         elif kind == 'update':
@@ -310,6 +340,13 @@ def show(st):
     if kind == 'Job':
         return "n = Job(required=%s, scheduler=%s)" % (
             t(st[1]), 'None' if st[2] is None else 's%d' % st[2])
+    if kind == 'JobPair':
+        return "S = {%s}; n = Job(required=S, scheduler=%s); n' = Job(" \
+            "required=S, scheduler=%s)" % (', '.join(t(x) for x in st[1]),
+                                          st[2], st[2])
+    if kind == 'nrequires':
+        return "n%d.requires(%s, remove=%s)" % (
+            st[1], ', '.join(t(x) for x in st[2]), st[3])
     if kind == 'update':
         return "s%d.update([%s])" % (st[1], ', '.join(t(x) for x in st[2]))
     return "s%d.%s(%s)" % (st[1], kind, t(st[2]))
